@@ -9,6 +9,8 @@ from . import facts as F
 
 VERIF = F.VERIF
 KNOWN = os.path.join(VERIF, "known_findings.txt")
+# runs against a scratch copy (selftest) must not overwrite the evidence of /repo
+EVDIR = os.path.join(VERIF, "evidence") if not os.environ.get("SQV_REPO") else os.path.join(VERIF, ".work", "evidence-scratch")
 
 
 class Anchor(Exception):
@@ -62,12 +64,12 @@ class Run:
         new = [o for k, o in fails.items() if k not in known]
         matched = [(k, known[k]) for k in fails if k in known]
         stale = [k for k in known if k not in fails]
-        os.makedirs(os.path.join(VERIF, "evidence", "replay"), exist_ok=True)
+        os.makedirs(os.path.join(EVDIR, "replay"), exist_ok=True)
         lines = []
         for k, desc in matched:
             lines.append("KNOWN-FINDING: property=%s key=%s %s" % (self.pid, k, desc))
         for i, o in enumerate(new):
-            rp = os.path.join(VERIF, "evidence", "replay", "%s-%d.json" % (self.pid, i))
+            rp = os.path.join(EVDIR, "replay", "%s-%d.json" % (self.pid, i))
             with open(rp, "w") as f:
                 json.dump({"property": self.pid, "tier": self.tier, "violation": o}, f, indent=1)
             lines.append("VIOLATION property=%s replay=%s" % (self.pid, rp))
@@ -121,7 +123,7 @@ class Run:
             "wall_s": round(time.time() - self.t0, 2),
             "violations": len(new),
         }
-        with open(os.path.join(VERIF, "evidence", "%s.json" % self.pid), "w") as f:
+        with open(os.path.join(EVDIR, "%s.json" % self.pid), "w") as f:
             json.dump(ev, f, indent=1)
         print("%s tier=%s configs=%s obligations=%d discharged=%d known=%d new=%d wall=%.1fs" % (
             self.pid, self.tier, ",".join(self.configs), total, discharged, len(matched), len(new), time.time() - self.t0))
